@@ -125,6 +125,14 @@ func TestVerifC33(t *testing.T) {
 			if transient {
 				pr.cl.F = simbe.Faults{ErrBefore: 60, PartialRead: 60, ListFail: 40, Budget: 3}
 			}
+			stickyIdx := tp.Choose(4) == 0
+			if stickyIdx {
+				// one index file cannot be downloaded at all (a backend error, not corruption); a pack file that cannot
+				// be downloaded is simply not readable in that run and restic skips it like a damaged one
+				f := fault{Kind: "sticky", Op: "Load", Type: backend.IndexFile, At: 1 + tp.Choose(2)}
+				w.arm(pr, f)
+				where += ", " + f.String()
+			}
 			removedPack := ""
 			w.store.OnMutation = append(w.store.OnMutation, func(m simbe.Mutation, _ []byte) {
 				if m.Op == "remove" && m.H.Type == backend.PackFile {
@@ -141,7 +149,7 @@ func TestVerifC33(t *testing.T) {
 				r.Fail("no-pack-removed", "packs-changed", "%s: the set of pack files changed during repair index", where)
 			}
 			if err != nil {
-				if w.faultsFired() == 0 || !transient {
+				if w.faultsFired() == 0 || !(transient || stickyIdx) {
 					r.Fail("repair-result", "repair-failed", "%s: repair index failed: %v\n%s", where, err, firstLines(pr.term.Err(), 6))
 				}
 				return
